@@ -8,7 +8,7 @@ from .. import gen, impl, oracle, ser, stream
 
 ID = "C02"
 LEVEL = "proof"
-PROPS_MODULE = "SymmModel.Props.C02"
+PROPS_MODULE = "SymmModel.Props.C02All"
 THEOREMS = [
     "SymmModel.C02.tensordotBlockwise_charge",
     "SymmModel.C02.tensordotBlockwise_sectors",
@@ -24,10 +24,23 @@ THEOREMS = [
     "SymmModel.C02.normAxis_spec",
     "SymmModel.C02.parseAxes_int_ok",
     "SymmModel.C02.matmulA_matrices",
-    "SymmModel.C02.tensordotBlockwise_elem_GRat"
+    "SymmModel.C02.tensordotBlockwise_elem_GRat",
+    "SymmModel.C02.tensordotUnpruned_same_elem",
+    "SymmModel.C02.tensordotBlockwise_toDense",
+    "SymmModel.C02.tensordotBlockwise_dense_entry",
+    "SymmModel.C02.tensordotBlockwise_shapes_unpruned",
+    "SymmModel.C02.tensordotBlockwise_shapes",
+    "SymmModel.C02.traceA_elem",
+    "SymmModel.C02.traceA_toDense",
+    "SymmModel.C02.einsumK_get",
+    "SymmModel.C02.einsumA_elem",
+    "SymmModel.C02.einPerm_ok",
+    "SymmModel.C02.matmulA_elem",
+    "SymmModel.C02.matmulA_toDense",
+    "SymmModel.C02.tensordot_outer"
 ]
-LEAN_FILES = ["SymmModel.Props.C02", "SymmModel.Proofs.TdotDense", "SymmModel.Proofs.TdotLemmas", "SymmModel.Proofs.Accum", "SymmModel.Proofs.BlkLemmas"]
-PLANNED = ["tensordotViaFused_elem (fused/auto path via C05/C06)", "einsum_elem", "trace_elem", "toDense transport", "result block shape w.r.t. the pruned result tables"]
+LEAN_FILES = ["SymmModel.Props.C02", "SymmModel.Proofs.TdotDense", "SymmModel.Proofs.TdotLemmas", "SymmModel.Proofs.Accum", "SymmModel.Proofs.BlkLemmas", "SymmModel.Props.C02b", "SymmModel.Props.C02All", "SymmModel.Proofs.TdotMore"]
+PLANNED = ["fused and auto modes (tensordotViaFused_elem, through C05/C06)", "dense form of einsumA (sector/elem level proved)"]
 RULE = ("random contractible pairs of abelian arrays over Z2/U1/Z2Z2/U1U1/Z4 (static and generic classes), "
         "0..ndim contracted axes at random positions incl. negative axes, sparse operands, real and complex "
         "data, modes auto/fused/blockwise through method/function/autoray entry points; matmul, trace, einsum. "
